@@ -48,8 +48,12 @@ def run_standard(chk, spec, replay=None):
         bad, errors = chk.coq_eval(spec["header"], cases, timeout=spec.get("coq_timeout", 1500), **ekw)
         for e in errors:
             proof_broken.append("a cases shard failed to evaluate: " + e["output"][-600:])
-    # opt-in (C16 only): a result code that means "same observable, different stored structure"
-    scode = spec.get("structure_code")
+    # framework convention (BUILDING.md, used by most case checkers): result code 2 means "the
+    # property's observable agrees, only a stored structure / the last bits of a float model
+    # differ" and is information, never a violation.  A spec may move the code
+    # (`structure_code`) or switch the convention off (`structure_code: None` explicitly, used by
+    # the main-session checkers, whose failure codes are 1, 3, 4, ...).
+    scode = spec["structure_code"] if "structure_code" in spec else 2
     structure_only = [b for b in bad if scode is not None and b[1] == scode]
     real_bad = [b for b in bad if scode is None or b[1] != scode]
     if structure_only:
